@@ -12,12 +12,15 @@ from checks import scan_common as sc
 
 CLAIM = {
     "level": "proof",
-    "text": "Coq theorems over one model text with a dialect switch (tpl/scanner / XGo scanner): the agreement theorem on inputs where "
-            "neither dialect takes a branch the other lacks, and the divergence witnesses (UNIT offset after blanks, '#' comments with "
-            "\\r or '#*', stripCR inside block comments); both dialects are tied to their real scanners by an exhaustive short-string and "
-            "seeded differential run, and the two real scanners are compared directly.",
-    "note": "Trusted: Coq kernel, extraction, harness. 'Shared' is decided from the two real outputs: no XGo keyword / CSTRING / PYSTRING "
-            "token, no TPL '~' '@' '**' token. Errors are not part of the property (token boundaries, literals, inserted semicolons).",
+    "text": "Coq theorems over one model text with a dialect switch (tpl/scanner / XGo scanner): if the XGo run takes no branch tpl/scanner "
+            "lacks or does differently (decidable predicate shared, evaluated by the model: no keyword, c\"/py\" string, '~' '@' '**', no blank "
+            "after a unit, comment sub-scanners agreeing) both dialects return identical tokens and errors (C32_tpl_eq_xgo_on_shared); the "
+            "divergence witnesses (UNIT offset after blanks, '#' comments with \\r or '#*', stripCR inside block comments). The Tpl dialect "
+            "is tied to tpl/scanner on every run (exhaustive byte strings, token-level sequences reaching nParen/insertSemi/unit state, "
+            "seeded sequences), the real scanners are compared directly, and wherever shared holds they must be identical.",
+    "note": "Trusted: Coq kernel, extraction, harness. In the direct comparison 'shared' is decided from the two real outputs (no XGo keyword / "
+            "CSTRING / PYSTRING token, no TPL '~' '@' '**' token) and token kinds are mapped by Token.String(). Errors are not part of the "
+            "property except under the theorem's hypothesis. The XGo dialect is tied to scanner.Scan by C15.",
 }
 
 XGO_KEYWORDS = [b"break", b"case", b"chan", b"const", b"continue", b"default", b"defer", b"else", b"fallthrough", b"for", b"func", b"go",
